@@ -53,10 +53,13 @@ type scenario struct {
 	// vars: the subscription declares a variable of an enum type whose internal values are
 	// not the value names; 1 = its default is used, 2 = a value is supplied
 	vars int
+	// spreads: the root field is reached only through a named fragment that is spread twice,
+	// the first spread switched off by a directive
+	spreads bool
 }
 
 func (s scenario) String() string {
-	return fmt.Sprintf("request=%s events=%d failing_event=%d nil_event=%d producer_closes=%v consumer=%s cancel=%v enum_variable=%s", reqNames[s.req], s.events, s.bad, s.nilAt-1, s.closes, consNames[s.cons], s.cancel, [...]string{"none", "defaulted", "supplied"}[s.vars])
+	return fmt.Sprintf("request=%s events=%d failing_event=%d nil_event=%d producer_closes=%v consumer=%s cancel=%v enum_variable=%s root_through_repeated_spread=%v", reqNames[s.req], s.events, s.bad, s.nilAt-1, s.closes, consNames[s.cons], s.cancel, [...]string{"none", "defaulted", "supplied"}[s.vars], s.spreads)
 }
 
 type env struct {
@@ -124,6 +127,9 @@ func requestText(sc scenario) string {
 	}
 	if sc.vars > 0 {
 		return "subscription($m: Mode = HI) { ev(m: $m) { v } }"
+	}
+	if sc.spreads {
+		return "subscription { ...T @skip(if: true) ...T } fragment T on Subscription { ev { v } }"
 	}
 	return "subscription { ev { v } }"
 }
@@ -323,6 +329,8 @@ func scenarios(thorough bool) []scenario {
 	out = append(out, scenario{req: reqValid, events: 1, bad: -1, closes: true, cons: consAll, cancel: false, vars: 1})
 	out = append(out, scenario{req: reqValid, events: 2, bad: -1, closes: true, cons: consAll, cancel: false, vars: 2})
 	out = append(out, scenario{req: reqValid, events: 1, bad: -1, closes: false, cons: consAll, cancel: true, vars: 2})
+	out = append(out, scenario{req: reqValid, events: 1, bad: -1, closes: true, cons: consAll, cancel: false, spreads: true})
+	out = append(out, scenario{req: reqValid, events: 2, bad: -1, closes: false, cons: consAll, cancel: true, spreads: true})
 	for req := reqSyntax; req < nReq; req++ {
 		for cons := consAll; cons <= consNone; cons += 2 {
 			for _, cancel := range []bool{false, true} {
